@@ -341,11 +341,21 @@ def _keep_sample(dirname, module, tag, events, bad=(), per_type=6):
                     f.write(json.dumps(g, separators=(",", ":")) + "\n")
 
 
-def tlc_judge(module, cfg, events, tag, timeout=3000, chunk=None):
+def tlc_judge(module, cfg, events, tag, timeout=3000, chunk=None, cut_before=None):
     """Trace validation: write events as ndjson, run the trace spec, return (n_consumed, bad_indices, stats).
-    bad indices are 0-based positions into `events`."""
+    bad indices are 0-based positions into `events`.  cut_before(e): stateful traces may only be cut in front of such an event."""
     os.makedirs(os.path.join(WORK, "trace"), exist_ok=True)
-    chunks = [events] if not chunk else [events[i:i + chunk] for i in range(0, len(events), chunk)]
+    if chunk and cut_before:
+        chunks, cur = [], []
+        for e in events:
+            if len(cur) >= chunk and cut_before(e):
+                chunks.append(cur)
+                cur = []
+            cur.append(e)
+        if cur:
+            chunks.append(cur)
+    else:
+        chunks = [events] if not chunk else [events[i:i + chunk] for i in range(0, len(events), chunk)]
     jobs = []
     off = 0
     for ci, evs in enumerate(chunks):
